@@ -241,10 +241,21 @@ fn lattice(g: &Geometry<f64>) -> String {
     format!("Q {} {} {} {} {}", proto::num(x0), proto::num(y0), proto::num(step), nx, ny)
 }
 
+/// decimal variant (builder-vs-model cases only; the other operations' oracles assume lattice coordinates): all coordinates
+/// times 0.1 / 0.3 / 0.7 / ⅓ — a vertex that lay exactly on a slanted foreign edge now lies a fraction of an ulp beside it
+fn decimal_variant(rng: &mut Rng, g: Geometry<f64>) -> Geometry<f64> {
+    if !rng.chance(1, 3) {
+        return g;
+    }
+    let f = *rng.pick(&[0.1f64, 0.3, 0.7, 1.0 / 3.0]);
+    g.map_coords(move |p| Coord { x: p.x * f, y: p.y * f })
+}
+
 pub fn gen(rng: &mut Rng, _index: u64) -> String {
     // the extra stream of ./check C10 (lib/props/C10.py: monobuild_stream): builder-vs-model cases only
     if std::env::var("VERIF_C10_STREAM").map(|v| v == "monobuild").unwrap_or(false) {
         let g = if rng.chance(1, 4) { wild_geom(rng) } else { gen_geom(rng, true) };
+        let g = decimal_variant(rng, g);
         return format!("C10.monobuild {}", proto::geom(&g));
     }
     match rng.below(10) {
@@ -263,6 +274,7 @@ pub fn gen(rng: &mut Rng, _index: u64) -> String {
                 // a quarter of these on arbitrary vertex sequences (crossings, overlaps, T-junctions, spikes):
                 // outside the property's domain, but the model mirrors the code there too, panics included
                 let g = if rng.chance(1, 4) { wild_geom(rng) } else { g };
+                let g = decimal_variant(rng, g);
                 format!("C10.monobuild {}", proto::geom(&g))
             } else {
                 format!("C10.mono {} {}", proto::geom(&g), lattice(&g))
